@@ -243,6 +243,39 @@ theorem coverCount_le_sweepCount (id : Nat) (ops : List Op) (h : Heap) : coverCo
 example : coverCount 0 init [.allocString longA, .allocString longB, .mark (.ref 0), .sweep 1, .sweep 1] = 1 := by decide
 example : read (run [.allocString longA, .allocString longB, .mark (.ref 0), .sweep 1, .sweep 1]) (.ref 0) = some longA := by decide
 
+/-! ## A mark is a mark wherever the sweep cursor stands (seeded fault C17h dropped marks of slots
+behind the cursor).  `mark` on a live temporary sets its mark bit whatever `sweepIndex` is, and the
+string then survives every history with at most one covering slice. -/
+
+theorem mark_sets_mark (h : Heap) (id : Nat) (s : Bytes) (m : Bool)
+    (hsl : h.slots[id]? = some (.temp s m)) :
+    (mark h (.ref id)).slots[id]? = some (.temp s true) := by
+  have hlt : id < h.slots.length := (List.getElem?_eq_some_iff.mp hsl).1
+  unfold mark
+  simp only [hsl]
+  simp [hlt]
+
+/-- … independent of the cursor: moving `sweepIndex` does not change what `mark` does to the slots. -/
+theorem mark_cursor_independent (h : Heap) (p : Handle) (c : Nat) :
+    (mark { h with sweepIndex := c } p).slots = (mark h p).slots := by
+  cases p with
+  | inl a => rfl
+  | ref id =>
+    simp only [mark]
+    split <;> rfl
+
+/-- a temporary marked NOW (cursor anywhere) is readable after any later history in which at most
+one open-gate slice covers its slot -/
+theorem mark_protects_until_second_cover (ops : List Op) (h : Heap) (hi : Inv h)
+    (id : Nat) (s : Bytes) (m : Bool) (hsl : h.slots[id]? = some (.temp s m))
+    (hok : OpsOk h (.mark (.ref id) :: ops))
+    (hcount : coverCount id (mark h (.ref id)) ops ≤ 1) :
+    read (run (.mark (.ref id) :: ops) h) (.ref id) = some s := by
+  simp only [run, List.foldl_cons]
+  have hi' : Inv (step h (.mark (.ref id))) := inv_step hi _ hok.1
+  exact marked_needs_two_covering_sweeps ops (step h (.mark (.ref id))) hi' hok.2 id s
+    (Or.inl (mark_sets_mark h id s m hsl)) hcount
+
 example : hLt (.inl [97]) (.inl [97, 0]) ∧ hLt (.inl [97, 0]) (.ref 0) ∧ hLt (.ref 0) (.ref 3) := by
   unfold hLt; decide
 example : SortedB (insertSorted [2] [[1], [3]]) := by
